@@ -1,7 +1,7 @@
 /-
 C04 - aggregations group, label and reduce exactly as the reference engine.
 -/
-import PromqlVerif.Proofs.Den
+import PromqlVerif.Proofs.Agg
 namespace PromqlVerif.C04
 open PromqlVerif Val
 
@@ -60,6 +60,39 @@ difference is the sign of a zero sum) -/
 theorem engReduce_sum (p : V) (v0 : V) (rest : List V) (hzero : ∀ v : V, add (zero : V) v = v) :
     engReduce "sum" p (v0 :: rest) = aggReduce "sum" p (v0 :: rest) := by
   simp [engReduce, aggReduce, List.foldl_cons, hzero]
+
+/-- **the engine's scalar-table aggregation over any expression of the C01 fragment is the reference
+aggregation, up to the order of the groups**: the engine forms the groups once from `Series()`,
+the reference per step from the samples present; accumulators are fed in sample order in both.
+For every grouping (`by`/`without`, any label list incl. absent labels and `__name__`), every
+occupancy pattern and every scalar-table aggregator other than `sum`/`avg` (`engReduce_sum`
+covers `sum` under `0 + v = v`; `avg` is `sum / count` against the incremental mean - equal in
+exact arithmetic only). -/
+theorem aggregation_over_fragment (c : Ctx V) (hq : c.q.noDupCheck = true) (op : String) (w : Bool)
+    (g : List String) (e : Expr V) (he : Frag false e)
+    (hacc : engineAccumulators.contains op = true)
+    (hvec : (!w && g.isEmpty && vectorizedAggs.contains op) = false)
+    (h1 : op ≠ "sum") (h2 : op ≠ "avg") :
+    ∃ o, engOp c (.agg op w g e) = .ok o ∧
+      ∀ t, ∃ ys out, o.step t = .ok ys ∧ eval c t (.agg op w g e) = .ok (.vec out) ∧
+        (denote o.series ys).Perm out := by
+  obtain ⟨child, hchild, _, hstep⟩ := frag_inv c hq false e he
+  have hk : (op == "topk" || op == "bottomk") = false := by
+    cases hc : (op == "topk" || op == "bottomk") with
+    | false => rfl
+    | true =>
+      simp only [Bool.or_eq_true, beq_iff_eq] at hc
+      rcases hc with rfl | rfl <;> (revert hacc; decide)
+  refine ⟨engAggregate op w g none child, ?_, fun t => ?_⟩
+  · rw [engOp]
+    simp only [hchild, bind, Except.bind, pure, Except.pure, hk, hacc, Bool.false_eq_true, if_false, Bool.not_true]
+  · obtain ⟨xs, hxs, hids, hval⟩ := hstep t
+    simp only [Bool.false_eq_true, if_false] at hval
+    obtain ⟨ys, out, hys, hspec, hperm⟩ := agg_perm child op w g none t xs nan hxs hids hvec rfl hk h1 h2
+    refine ⟨ys, out, hys, ?_, hperm⟩
+    rw [eval]
+    simp only [hval, hspec, bind, Except.bind, pure, Except.pure, Value.asVec, dedupCheck, hq, Bool.not_true, Bool.false_and,
+      Bool.false_eq_true, if_false]
 
 /-- the heap selection of topk/bottomk only ever returns members of the group -/
 example : kSelect true 2 [("a", (1 : Int)), ("b", 5), ("c", 3), ("d", 4)] = [("d", 4), ("b", 5)] := by decide
